@@ -259,6 +259,7 @@ var c11Events = []string{"Up", "Down", "Open", "Close", "timeout", "receiveConfi
 
 func C11(c *Ctx) {
 	r := c.R
+	defer c11ParserConsumesAll(c)
 	r.Explain = "The transition relation of the LCP, IPCP and IPv6CP automata is extracted from /repo's source by a finite-domain disjunctive dataflow analysis (configurations = automaton state × guard atoms (identifier match, restart counter) × actions performed, same-receiver calls summarised) for every (event handler, pre-state) pair, and checked against the safety invariants C11 states: who may enter/leave Opened, freshness of both acknowledgements, stale identifiers ignored, reply identifiers/codes, restart-counter discipline; plus option-list provenance in processConfigureOptions and the ReceivePacket dispatch table.  Complete over the extracted relation; timer/packet races and option byte contents are not decided."
 	r.Rule("C11.I0.dispatch", "ReceivePacket dispatches each LCP code to its handler (Configure-Request/Ack/Nak/Reject, Terminate-Request/Ack)", 18)
 	r.Rule("C11.I1.enterOpened", "Opened is entered only by RCR+ in Ack-Rcvd (a Configure-Ack echoing the request was sent) or RCA with matching identifier in Ack-Sent", 6)
